@@ -3,9 +3,10 @@ CONSTANTS
   NLanes = 2
   LineSize = 8
   Deviations <- Width
+  Window = 2
   LastIsLast = TRUE
   MemSize = 24
   MCOps <- OpsSub
   MCAddrs <- AddrsAligned
-INVARIANTS TypeOK NoCrash TxnSound RegsCorrect MemCorrect CountersZero CompletesOnce CompletesAfterLast
+INVARIANTS TypeOK WindowRespected OneLast NoCrash TxnSound RegsCorrect MemCorrect CountersZero CompletesOnce CompletesAfterLast
 CHECK_DEADLOCK FALSE
